@@ -87,9 +87,33 @@ contract(ENT + '.response_args[AuthnRequest]', variant_of=ENT + '.response_args'
 ARQ = 'saml2_tophat.response:AuthnResponse'
 contract('saml2_tophat.response:StatusResponse.__init__', inline=True)
 contract(ARQ + '.__init__', inline=True)
-contract('saml2_tophat.config:Config.endpoint', pure=True, trusted=True, params=['self', 'service', 'binding', 'context'],
-         defaults={'binding': None, 'context': None}, returns='List(Str)',
-         note='ASSUMED here: the endpoints configured for that service and binding (repository code, a 15-line filter)')
+EPL = 'List(Tuple(Str, Str))'
+_T = "as_type(cfg_attr(cfg, 'endpoints', ctx), 'Dict(Str, Any)')"
+# the configured endpoint table has the documented shape: service -> list of (location, binding) pairs
+macro('EP_TABLE_OK', ['cfg', 'ctx'],
+      "cfg_attr(cfg, 'endpoints', ctx) is None or (typed(cfg_attr(cfg, 'endpoints', ctx), 'Dict(Str, %s)') and "
+      "forall(lambda k: implies(has_key(%s, k), typed(%s[k], '%s') and "
+      "forall(lambda j: typed(as_type(%s[k], '%s')[j], 'Tuple(Str, Str)'), 0, len(as_type(%s[k], '%s')))), 'Val'))"
+      % (EPL, _T, _T, EPL, _T, EPL, _T, EPL))
+contract('saml2_tophat.config:Config.endpoint', types={'service': 'Str', 'binding': 'Opt(Str)', 'context': 'Opt(Str)'}, returns='List(Str)',
+         requires=["cfg_attr(self, 'endpoints', context) is None or typed(cfg_attr(self, 'endpoints', context), 'Dict(Str, %s)')" % EPL,
+                   "implies(cfg_attr(self, 'endpoints', context) is not None, forall(lambda k: implies(has_key(as_type(cfg_attr(self, 'endpoints', context), 'Dict(Str, Any)'), k), "
+                   "typed(as_type(cfg_attr(self, 'endpoints', context), 'Dict(Str, Any)')[k], '%s')), 'Val'))" % EPL,
+                   "implies(cfg_attr(self, 'endpoints', context) is not None and has_key(as_type(cfg_attr(self, 'endpoints', context), 'Dict(Str, Any)'), service), "
+                   "forall(lambda j: typed(as_type(as_type(cfg_attr(self, 'endpoints', context), 'Dict(Str, Any)')[service], '%s')[j], 'Tuple(Str, Str)'), 0, "
+                   "len(as_type(as_type(cfg_attr(self, 'endpoints', context), 'Dict(Str, Any)')[service], '%s'))))" % (EPL, EPL)],
+         lets={'TAB': "as_type(cfg_attr(self, 'endpoints', context), 'Dict(Str, %s)')" % EPL},
+         ensures=[# C10 / C05: only locations configured for this very service, and -- when a binding is asked for -- this very binding
+                  ('C10-own-endpoints-of-that-service-and-binding',
+                   "forall(lambda v: implies(contains(seq(result), v), cfg_attr(self, 'endpoints', context) is not None and has_key(TAB, service) and "
+                   "exists(lambda j: TAB[service][j][0] == v and (binding is None or TAB[service][j][1] == binding), 0, len(TAB[service]))), 'Val')"),
+                  ('fresh', 'fresh(result)')],
+         modifies=[], local_types={'endps': 'Opt(Dict(Str, %s))' % EPL, 'spec': 'List(Str)', 'unspec': 'List(Str)'},
+         loops={0: {'inv': ["forall(lambda v: implies(contains(seq(spec), v), exists(lambda j: seq0[j][0] == v and (binding is None or seq0[j][1] == binding) and j < i0, 0, len(seq0))), 'Val')",
+                            'len(unspec) == 0'],
+                    'modifies': ['list(spec)']}},
+         clauses_from={'C10': ['C10-own-endpoints-of-that-service-and-binding'], 'C05': ['C10-own-endpoints-of-that-service-and-binding']},
+         note='the configured table is assumed to have the documented shape (pairs); a malformed entry (ValueError branch) is excluded by the precondition')
 contract(ENT + '.unravel', pure=True, trusted=True, params=['txt', 'binding', 'msgtype'], defaults={'msgtype': 'response'},
          returns='Union(Str, Bytes, NoneT)', raises={'UnknownBinding': 'True', 'UnravelError': 'True'},
          note='ASSUMED here: transport decoding (C14 decoders)')
@@ -105,6 +129,7 @@ contract(ENT + '._parse_response[AuthnResponse]', variant_of=ENT + '._parse_resp
                 'kwargs': 'Dict(Str, Any)'},
          returns="Opt(Inst('%s'))" % ARQ, feas_ms=60, merge_exits='raises',
          requires=[_KWSET, 'forall(lambda k: implies(has_key(kwargs, k), %s), "Val")' % ' or '.join("k == '%s'" % k for k in _KW),
+                   "forall(lambda c: EP_TABLE_OK(self.config, c), 'Val')",
                    "is_str(kwargs['entity_id'])", "kwargs['valid_destination_regex'] is None or is_str(kwargs['valid_destination_regex'])",
                    "typed(kwargs['return_addrs'], 'Opt(List(Str))')", "kwargs['conv_info'] is None or typed(kwargs['conv_info'], 'Dict(Str, Any)')",
                    "kwargs['outstanding_queries'] is None or typed(kwargs['outstanding_queries'], 'Dict(Str, Any)')",
@@ -170,7 +195,7 @@ for _cls in ['AuthnRequest', 'LogoutRequest', 'AttributeQuery', 'AuthnQuery', 'A
              types={'enc_request': 'Any', 'request_cls': "Cls('%s')" % _cq, 'service': 'Str', 'binding': 'Opt(Str)'},
              returns="Opt(Inst('%s'))" % _cq, merge_exits='raises',
              # the two options are configuration booleans (or unset)
-             requires=["class_is(request_cls, %r)" % _cq,
+             requires=["class_is(request_cls, %r)" % _cq, "forall(lambda c: EP_TABLE_OK(self.config, c), 'Val')",
                        "typed(cfg_attr(self.config, 'want_authn_requests_signed', 'idp'), 'Opt(Bool)')",
                        "typed(cfg_attr(self.config, 'want_authn_requests_only_with_valid_cert', 'idp'), 'Opt(Bool)')"],
              ensures=[
@@ -198,3 +223,7 @@ for _cls in ['AuthnRequest', 'LogoutRequest', 'AttributeQuery', 'AuthnQuery', 'A
              clauses_from={'C10': ['C10-parsed-and-valid', 'C10-unsigned-refused-when-signatures-wanted', 'C10-present-signature-verified',
                                    'C10-destination-when-endpoints', 'C10-issue-instant'], 'C06': ['C06-version']})
 contract(ENT + '._parse_request', trusted=True, variants=_req_variants, note='dispatch stub for the constant request-class variants')
+
+
+# ================================================================================================ Config.endpoint (C10 / C05: "own endpoints")
+ghost('cfg_endpoints', ['Val', 'Val'], 'Val')
